@@ -1,7 +1,7 @@
 SPECIFICATION Spec
 CONSTANTS
   MaxLen = 5
-  IfsSet = {1,2,3,4,5,6,7,8,9,10}
+  IfsSet = {1,2,3,5,6,7,8,9}
   ModeSet = {"reply","n1","n2","n3","n4","array"}
   AlphaN = 5
 INVARIANTS Laws EmitInv
